@@ -118,9 +118,9 @@ def parseWF : Nat → List Tok → Option (L × List Tok)
           (parseWF f ts2).map (fun (r, u) => (.opt flag.toNat false cond body [] r, u))
         | _ => none
       | _ => none
-    | .ifbit k =>
+    | .ifbit fld k =>
       match parseWF f ts with
-      | some (body, .en :: ts2) => (parseWF f ts2).map (fun (r, u) => (.bit "Opt" k body r, u))
+      | some (body, .en :: ts2) => (parseWF f ts2).map (fun (r, u) => (.bit fld k body r, u))
       | _ => none
     | .ifnil nm =>
       match stripPrefix (fieldsWPat nm) ts with
@@ -185,9 +185,9 @@ def parseRF : Nat → List Tok → Option (L × List Tok)
           | none => none
         | [] => none
       | none => none
-    | .ifbit k =>
+    | .ifbit fld k =>
       match parseRF f ts with
-      | some (body, .en :: ts2) => (parseRF f ts2).map (fun (r, u) => (.bit "Opt" k body r, u))
+      | some (body, .en :: ts2) => (parseRF f ts2).map (fun (r, u) => (.bit fld k body r, u))
       | _ => none
     | .rsub "ReadBlob" =>
       match ts with
@@ -210,8 +210,10 @@ def parseRF : Nat → List Tok → Option (L × List Tok)
         if a1 = a ∧ b1 = b then
           match parseRF f ts1 with
           | some (body, .sc :: .en :: ts2) => (parseRF f ts2).map (fun (r, u) => (.lit .u8 0 (.wrap body none r), u))
-          | some (body, .ifavail :: .rl "ReadValue" v "" :: .iff c :: .asg nm "*value.MapValue" e :: .en :: .en :: .sc :: .en :: ts2) =>
-            if c = v ++ ".(*value.MapValue)#1" ∧ e = v ++ ".(*value.MapValue)#0" then
+          | some (body, .ifavail :: .rl "ReadValue" v "" :: .iftype v1 "*value.MapValue" ::
+                .asgcast nm "*value.MapValue" v2 "*value.MapValue" :: .en :: .en :: .sc :: .en :: ts2) =>
+            -- if bytes are left: read a value; if it is a map, it becomes the attribute map
+            if v1 = v ∧ v2 = v then
               (parseRF f ts2).map (fun (r, u) => (.lit .u8 0 (.wrap body (some nm) r), u))
             else none
           | _ => none
